@@ -290,23 +290,60 @@ func ruleC12Valid(p *Prog, a *Anchors, r *Report) {
 				r.Bad(name+":validate-error-returns", p.InstrPos(cv), "the result of checkForValidIdentifiers does not stop execution")
 			}
 		}
-		// macro clash: a comma-ok lookup in Template.exportedMacros whose hit edge returns a non-nil error
+		// macro clash: a comma-ok lookup in Template.exportedMacros whose hit edge returns a non-nil error, in the
+		// builder itself or in a helper it calls (whose error result must then stop the builder)
 		clash := false
+		cands := []*ssa.Function{builder}
 		for _, b := range builder.Blocks {
 			for _, in := range b.Instrs {
-				lk, ok := in.(*ssa.Lookup)
-				if !ok || !lk.CommaOk || !loadsField(lk.X, "Template", "exportedMacros") {
-					continue
+				if ci, ok := in.(ssa.CallInstruction); ok {
+					if cal := ci.Common().StaticCallee(); cal != nil && p.InPkg(cal) && cal.Blocks != nil && errorResultIndex(cal) >= 0 {
+						cands = append(cands, cal)
+					}
 				}
-				// find the If on extract #1
-				for _, u := range refs(lk) {
-					ex, ok := u.(*ssa.Extract)
-					if !ok || ex.Index != 1 {
+			}
+		}
+		for _, fn := range cands {
+			for _, b := range fn.Blocks {
+				for _, in := range b.Instrs {
+					lk, ok := in.(*ssa.Lookup)
+					if !ok || !lk.CommaOk || !loadsField(lk.X, "Template", "exportedMacros") {
 						continue
 					}
-					for _, uu := range refs(ex) {
-						if iff, ok := uu.(*ssa.If); ok && errorReturnsOnly(builder, iff.Block().Succs[0]) {
-							clash = true
+					for _, u := range refs(lk) {
+						ex, ok := u.(*ssa.Extract)
+						if !ok || ex.Index != 1 {
+							continue
+						}
+						for _, uu := range refs(ex) {
+							iff, ok := uu.(*ssa.If)
+							if !ok || !errorReturnsOnly(fn, iff.Block().Succs[0]) {
+								continue
+							}
+							if fn == builder {
+								clash = true
+								continue
+							}
+							// helper: its result is tested by the builder before the context is created
+							for _, hc := range callsTo(builder, fn) {
+								hv, isV := hc.(*ssa.Call)
+								if !isV {
+									continue
+								}
+								if GuardedFrom(hv.Block(), site.(ssa.Instruction).Block(), func(cond ssa.Value, pol bool) bool {
+									x, eq, isNil := condIsNilTest(cond)
+									if !isNil || eq != pol {
+										return false
+									}
+									if x == ssa.Value(hv) {
+										return true
+									}
+									e2, isEx := x.(*ssa.Extract)
+									return isEx && e2.Tuple == ssa.Value(hv)
+								}) {
+									clash = true
+								}
+							}
 						}
 					}
 				}
